@@ -53,3 +53,30 @@ def runtime_options_item(u):
     """The real RuntimeOptions struct (brush-core/src/options.rs), so that contracts can mention any option."""
     op = u.source('brush-core/src/options.rs')
     u.add(op.item(r'^pub struct RuntimeOptions ', 'RuntimeOptions').r1(keep_derive=()))
+
+
+def replay_scripts(repo, candidates):
+    """A `unit.counterexample` hook: candidate scripts with the output bash gives (written down here, bash is not run), run on the binary
+    built from the tree under check; the first one that prints something else is the failing input."""
+    def cb(failure, workdir):
+        import os
+        import subprocess
+        if not os.path.exists(os.path.join(repo, 'Cargo.lock')) or os.environ.get('VERIF_NO_REPLAY_BUILD'):
+            failure.replay_note = 'not replayed: the tree under check is a source export without a build set-up'
+            return None
+        try:
+            b = subprocess.run(['cargo', 'build', '--offline', '-q', '-p', 'brush-shell'], cwd=repo, capture_output=True, text=True, timeout=1800)
+            if b.returncode != 0:
+                failure.replay_note = 'not replayed: cargo build failed'
+                return None
+            for script, expected in candidates:
+                r = subprocess.run([os.path.join(repo, 'target/debug/brush'), '--norc', '--noprofile', '-c', script], capture_output=True, text=True, timeout=20)
+                if r.stdout != expected:
+                    return 'script: %s\nexpected output: %r\nreplayed on %s/target/debug/brush (built from the tree under check): stdout %r stderr %r' % (
+                        script, expected, repo, r.stdout, r.stderr.strip()[:200])
+        except Exception as e:
+            failure.replay_note = 'not replayed: %r' % e
+            return None
+        failure.replay_note = '%d candidate script(s) replayed on target/debug/brush: all print what is expected — no failing input among them' % len(candidates)
+        return None
+    return cb
